@@ -42,7 +42,7 @@ func (h HTTPIndexHandler) ServeHTTP(w http.ResponseWriter, r *http.Request) {
 func (h HTTPIndexHandler) get(indexName string, w http.ResponseWriter) {
 	idx, err := h.s.GetIndex(indexName)
 	if err != nil {
-		if os.IsNotExist(err) {
+		if indexMissing(err) {
 			w.WriteHeader(http.StatusNotFound)
 		} else {
 			w.WriteHeader(http.StatusBadRequest)
@@ -59,10 +59,25 @@ func (h HTTPIndexHandler) get(indexName string, w http.ResponseWriter) {
 	h.HTTPHandlerBase.get(indexName, b.Bytes(), err, w)
 }
 
+// indexMissing returns true if the error of an index store says that the index
+// doesn't exist, as opposed to a failure to find out. Local index stores report
+// that with an os error, a remote index server with NoSuchObject.
+func indexMissing(err error) bool {
+	if os.IsNotExist(err) {
+		return true
+	}
+	_, ok := err.(NoSuchObject)
+	return ok
+}
+
 func (h HTTPIndexHandler) head(indexName string, w http.ResponseWriter) {
 	r, err := h.s.GetIndexReader(indexName)
 	if err != nil {
-		w.WriteHeader(http.StatusNotFound)
+		if indexMissing(err) {
+			w.WriteHeader(http.StatusNotFound)
+		} else {
+			w.WriteHeader(http.StatusInternalServerError)
+		}
 		return
 	}
 	r.Close()
